@@ -49,7 +49,7 @@ func (c config) name() string {
 
 var symNames = []string{"W(L1,plain)", "W(L1,marker+2csrc,empty)", "W(L1,15csrc,1460B)", "W(L1,one-byte-ext)", "W(L1,two-byte-ext,1459B)", "W(L1,padding)",
 	"W(L2,plain)", "R(R1,plain)", "R(R1,two-byte-ext)", "R(R1,padding)", "R(R2,plain)",
-	"RTCPin(SR)", "RTCPin(NACK never-sent)", "RTCPin(TWCC)", "RTCPin(CCFB)", "RTCPout(PLI)", "Tick", "FailNextWrite", "FailNextRead", "W(L1,plain,SSRC of stream 3)"}
+	"RTCPin(SR)", "RTCPin(NACK never-sent)", "RTCPin(TWCC)", "RTCPin(CCFB)", "RTCPout(PLI)", "Tick", "FailNextWrite", "FailNextRead", "W(L1,plain,SSRC of stream 3)", "FailNextRTCPWrite"}
 
 const (
 	symTick  = 16
@@ -395,6 +395,10 @@ func (sys *system) apply(sym int) (string, error) {
 	case sym == symFailW:
 		sys.failW = true
 		return "fw", nil
+	case sym == 20:
+		// the next RTCP batch written to the transport (feedback of an interceptor, or the application's) fails
+		sys.s.T.FailRTCPOnce = 1
+		return "fc", nil
 	case sym == 19:
 		// any SSRC may travel on a stream's writer: here the one another bound stream uses
 		sys.foreign = sys.s.Locals[3].Info.SSRC
@@ -496,13 +500,18 @@ func exec(c config, hist []int) hk.Step {
 			st.Outcome = out
 		}
 		st.Nontrivial = len(hist) > 0 && hist[len(hist)-1] < symFailW
-		st.Key = hk.DeepHash(sys.s.I) ^ hk.EnvHash() ^ hk.HashInts(int64(sys.wseq[1]), int64(sys.wseq[2]), int64(sys.rseq[1]), int64(sys.rseq[2]), b2i(sys.failW), b2i(sys.failR))
+		st.Key = hk.DeepHash(sys.s.I) ^ hk.EnvHash() ^ hk.HashInts(int64(sys.wseq[1]), int64(sys.wseq[2]), int64(sys.rseq[1]), int64(sys.rseq[2]), b2i(sys.failW), b2i(sys.failR), int64(sys.s.T.FailRTCPOnce))
 		_ = sys.s.I.Close()
 	})
 	if st.Violation == nil && !st.Dead {
 		switch {
-		case len(res.Panics) > 0, res.StepLimit, res.Deadlock:
-			// crashes and hangs are C02/C11's subject; the history cannot be judged here
+		case res.Deadlock && len(res.Panics) == 0:
+			// a Read or Write of a well-formed packet on an open chain that never returns: the packet is neither
+			// handed to the application nor to the next writer
+			st.Violation = &hk.Violation{Key: "C01:call-never-returns:" + lastMember(c),
+				Message: fmt.Sprintf("%s: the last operation of the history never returns (blocked: %+v)", c.name(), res.Blocked), Replay: describe(c, hist)}
+		case len(res.Panics) > 0, res.StepLimit:
+			// crashes and endless loops are C02's subject; the history cannot be judged here
 			st.Dead = true
 		case len(res.Failures) > 0:
 			st.Violation = &hk.Violation{Key: "C01:harness", Message: res.Failures[0], Replay: describe(c, hist)}
